@@ -65,7 +65,10 @@ Inductive c11_case :=
 | COp (inplace : bool) (o : pyop) (kl kr : okind) (x y : pyval)
 (* fiber arithmetic: * or +, with a fiber b or with the scalar s; both the value-returning and
    the in-place form are run on (copies of) the same operands *)
-| CFib (mul withfiber : bool) (sa : option Z) (a : zfib) (sb : option Z) (b : zfib) (s : Z).
+| CFib (mul withfiber : bool) (sa : option Z) (a : zfib) (sb : option Z) (b : zfib) (s : Z)
+(* round 2: the same on fiber objects that carry an explicit active range, optionally after a first
+   in-place step  a += c (false) / a *= c (true)  — a two-step history on the same object a *)
+| CFibH (pre : option (bool * afib)) (mul withfiber : bool) (a b : afib) (s : Z).
 
 (* ------------------------------------------------------------------ observation encoding *)
 Definition V_val (v : pyval) : V :=
@@ -96,10 +99,7 @@ Definition fib_obs (r1 : zfib) (r2 : option zfib) (r3 : zfib) (ret_is_a : bool)
   VL [V_fib r1; Vo V_fib r2; V_fib r3; Vb ret_is_a; V_fib a_after; V_fib b_after].
 
 (* ------------------------------------------------------------------ the faithful model *)
-Definition c11_model (c : c11_case) : V :=
-  match c with
-  | COp i o kl kr x y => V_aobs (run_op pyval bop_py payload_table coordpayload_table i o kl kr x y)
-  | CFib mul withfiber sa a sb b s =>
+Definition fib_model (mul withfiber : bool) (sa : option Z) (a : zfib) (b : zfib) (s : Z) : V :=
     match mul, withfiber with
     | false, true => fib_obs (fadd a b) None (fiadd a b) true a b
     | false, false => fib_obs (fadd_scalar sa a s) (Some (fadd_scalar sa a s))   (* __radd__ = __add__ *)
@@ -107,7 +107,18 @@ Definition c11_model (c : c11_case) : V :=
     | true, true => fib_obs (fmul a b) None (fimul a b) true a b
     | true, false => fib_obs (fmul_scalar a s) (Some (fmul_scalar a s))          (* __rmul__ = __mul__ *)
                              (fimul_scalar a s) true a b
-    end
+    end.
+
+(* history observation: [a after the first step; a.getActive() then; the fiber observation of the
+   second step, whose left operand is that a] *)
+Definition c11_model (c : c11_case) : V :=
+  match c with
+  | COp i o kl kr x y => V_aobs (run_op pyval bop_py payload_table coordpayload_table i o kl kr x y)
+  | CFib mul withfiber sa a sb b s => fib_model mul withfiber sa a b s
+  | CFibH pre mul withfiber a b s =>
+    let a1 := hist_step pre a in
+    VL [V_fib (af_elems a1); Vp VZ VZ (get_active a1);
+        fib_model mul withfiber (af_shape a1) (af_elems a1) (af_elems b) s]
   end.
 
 (* ------------------------------------------------------------------ the property as a decision
@@ -185,6 +196,40 @@ Definition c11_wf (c : c11_case) : bool :=
        | _, _ => wf_operands o x (match kr with KSame => x | _ => y end)
        end
   | CFib mul withfiber sa a sb b s => wf_fib sa a && wf_fib sb b
+  | CFibH pre mul withfiber a b s =>
+    wf_afib a && wf_afib b
+    && match pre with
+       | None => true
+       | Some (_, c) => wf_afib c && within (af_shape a) (af_elems c)
+       end
+  end.
+
+(* the first step of a history, judged on the observed fiber a1:  a1 is a well-formed fiber of a's
+   shape whose content is the elementwise sum / product of a and c (nothing happened: a1 = a) *)
+Definition pre_ok (pre : option (bool * afib)) (a : afib) (a1 : zfib) : bool :=
+  match pre with
+  | None => V_eqb (V_fib (af_elems a)) (V_fib a1)
+  | Some (m, c) =>
+    let N := universe (af_shape a) (af_elems a) (af_shape c) (af_elems c) in
+    wf_fib (af_shape a) a1 && fib_ok N a1
+    && forallb (fun x => Z.eqb (getz x a1)
+                               (if m then getz x (af_elems a) * getz x (af_elems c)
+                                else getz x (af_elems a) + getz x (af_elems c)))
+               (zrange N)
+  end.
+
+(* a history: the first step is right, and the second step is right for the fiber a1 that the
+   first step left (its declared shape is still a's; its active range plays no role) *)
+Definition hist_spec (pre : option (bool * afib)) (mul withfiber : bool) (a b : afib) (s : Z)
+           (o : V) : bool :=
+  match o with
+  | VL [v1; _; o2] =>
+    match unV_fib v1 with
+    | Some a1 => pre_ok pre a a1
+                 && fib_spec mul withfiber (af_shape a) a1 (af_shape b) (af_elems b) s o2
+    | None => false
+    end
+  | _ => false
   end.
 
 Definition c11_holds (c : c11_case) (o : V) : bool :=
@@ -192,6 +237,7 @@ Definition c11_holds (c : c11_case) (o : V) : bool :=
     match c with
     | COp i o' kl kr x y => V_eqb (V_aobs (spec_op pyval bop_py i o' kl kr x y)) o
     | CFib mul withfiber sa a sb b s => fib_spec mul withfiber sa a sb b s o
+    | CFibH pre mul withfiber a b s => hist_spec pre mul withfiber a b s o
     end
   else true.
 
